@@ -44,6 +44,10 @@ type SchedScenario struct {
 	// Process-global state (caches, lazily initialised tables) is then first
 	// touched under the scheduler. Uses the default budget.
 	Cold bool `json:"cold_process,omitempty"`
+	// ColdCompileOnly (with Cold): every op is a Compile and NOTHING is compiled
+	// before the tasks start - the first Compile calls of the process happen
+	// under the scheduler.
+	ColdCompileOnly bool `json:"cold_compile_only,omitempty"`
 	// Lenient: the shared options include AllowUndefinedVariables (and one
 	// program mentions names the environment does not have).
 	Lenient bool `json:"allow_undefined,omitempty"`
@@ -210,6 +214,7 @@ func (c08Engine) Gen(seed uint64, idx int, tier string) interface{} {
 	if r.Chance(1, 4) {
 		sc.Cold = true
 		sc.BudgetSlack = -1
+		sc.ColdCompileOnly = r.Chance(1, 3)
 	}
 	switch x := r.Intn(20); {
 	case x == 0:
@@ -238,6 +243,16 @@ func (c08Engine) Gen(seed uint64, idx int, tier string) interface{} {
 			ops[j] = SchedOp{Kind: kind, Prog: r.Intn(np)}
 		}
 		sc.Tasks = append(sc.Tasks, ops)
+	}
+	if sc.ColdCompileOnly {
+		for t := range sc.Tasks {
+			for j := range sc.Tasks[t] {
+				sc.Tasks[t][j].Kind = "compile"
+			}
+		}
+		for i := range sc.Progs {
+			sc.Progs[i].NoEnv = false
+		}
 	}
 	// Bias: make several tasks run the same program at the same time.
 	if r.Chance(1, 2) {
@@ -390,8 +405,12 @@ func runSched(sc *SchedScenario, ctx *RunCtx) (*Finding, []Seg) {
 	progs := make([]*vm.Program, len(sc.Progs))
 	baseProgs := make([]*vm.Program, len(sc.Progs))
 	srcs := make([]string, len(sc.Progs))
+	coldCompile := sc.Cold && sc.ColdCompileOnly
 	for i, p := range sc.Progs {
 		srcs[i] = p.Src()
+		if coldCompile {
+			continue // nothing is compiled before the tasks start
+		}
 		for _, pool := range [][]*vm.Program{baseProgs, progs} {
 			pr, co := sutCompile(srcs[i], optsOf[i]...)
 			if co.Failed() && p.Tree == nil && !co.Panicked {
